@@ -159,6 +159,8 @@ V['C11'] = [
     ('limit steps resized to the data', LIM, '        one = np.ones(original_shape)\n        h = np.vstack([np.ravel(one * step) for step in steps])\n        _assert(f_del.size == h.size', '        h = np.vstack([np.ravel(np.resize(step, original_shape)) for step in steps])\n        _assert(f_del.size == h.size', 'F', 'R-MISUSE'),
 ]
 V['C12'] = [
+    ('sec through a reciprocal with the Euclidean norm', MC, '    def sec(self):\n        return 1. / self.cos()\n', '    def reciprocal(self):\n        den = self.norm() ** 2\n        return Bicomplex(self.z1 / den, -self.z2 / den)\n\n    def sec(self):\n        return self.cos().reciprocal()\n', 'F', 'R-DERIVED'),
+    ('sec through a reciprocal with the complex modulus', MC, '    def sec(self):\n        return 1. / self.cos()\n', '    def reciprocal(self):\n        den = self.mod_c() ** 2\n        return Bicomplex(self.z1 / den, -self.z2 / den)\n\n    def sec(self):\n        return self.cos().reciprocal()\n', 'S', None),
     ('revert fix 2b04784 (log1p)', MC, '        z1, z2 = self.z1, self.z2\n        # log(mod_c(1 + z)) = 0.5 * log((1 + z1)**2 + z2**2)\n        return Bicomplex(0.5 * np.log1p(z1 * (2 + z1) + z2 * z2), self.arg_c1p())', '        return Bicomplex(np.log1p(self.mod_c()), self.arg_c1p())', 'F', None),
     ('revert fix cf4bd22 (expm1)', MC, '(expm1z1 + 1) * np.sin(self.z2))', 'expm1z1 * np.sin(self.z2))', 'F', 'R-EXPPOLY'),
     ('sin sign', MC, '        z2 = np.sinh(self.z2) * np.cos(self.z1)\n        return Bicomplex(z1, z2)', '        z2 = -np.sinh(self.z2) * np.cos(self.z1)\n        return Bicomplex(z1, z2)', 'F', 'R-EXPPOLY'),
